@@ -41,7 +41,8 @@ pub mod cln_plugin {
 }
 pub mod htlc_manager {
     use super::*;
-    pub struct HtlcManager<B, N, P, S> { pub p: core::marker::PhantomData<(B, N, P, S)> }
+    // `id`: ghost identity (a struct of PhantomData only would be single-valued: any two values provably equal)
+    pub struct HtlcManager<B, N, P, S> { pub p: core::marker::PhantomData<(B, N, P, S)>, pub id: Ghost<int> }
     impl<B, N, P, S> HtlcManager<B, N, P, S> {
         /// the manager's answer to one hook call (units handle / lifecycle): recorded in the ghost
         #[verifier::external_body]
